@@ -147,7 +147,7 @@ def wp_ok(t):
     return True
 
 
-MUST_REJECT = ['1e5', 'a * 1.5e2', 'f0(1e5, 2)', '2E+3', '1e', '1e+', '.5', '1.2.3', '1_000', '0x10', 'a + 3e7 * b']
+MUST_REJECT = ['foo(1,)', 'foo(a, b, )', 'bar(foo(1,), 2)', 'foo(,)', 'foo(, 1)', 'foo(1,,2)', 'foo(1 2)', '(a,)', '1e5', 'a * 1.5e2', 'f0(1e5, 2)', '2E+3', '1e', '1e+', '.5', '1.2.3', '1_000', '0x10', 'a + 3e7 * b']
 
 
 # ------------------------------------------------------------------ generators
@@ -330,7 +330,7 @@ def run(tier):
     for (toks, text, tag), res in zip(cases, impl):
         dist[tag] = dist.get(tag, 0) + 1
         if tag == 'must-reject' and 'err' not in res:
-            chk.oracle_fail.append({'class': 'ill-formed-number-accepted', 'source': text, 'got': res})
+            chk.oracle_fail.append({'class': 'ill-formed-text-accepted', 'source': text, 'got': res})
         if 'again' in res and len(chk.oracle_fail) < 30:
             chk.oracle_fail.append({'class': 'parse-result-depends-on-earlier-calls', 'source': text,
                                     'first': {k: v for k, v in res.items() if k != 'again'}, 'second_pass': res['again']})
